@@ -117,7 +117,7 @@ func ConversationToNetconf(conversation []dhcpv6.DHCPv6) (*BootConf, error) {
 	if u := reply.Options.BootFileURL(); len(u) > 0 {
 		bootconf.BootfileURL = u
 		bootconf.BootfileParam = reply.Options.BootFileParam()
-	} else {
+	} else if advertise != nil {
 		log.Printf("no bootfile URL option found in REPLY, fallback to ADVERTISE's value")
 		if u := advertise.Options.BootFileURL(); len(u) > 0 {
 			bootconf.BootfileURL = u
